@@ -50,6 +50,7 @@ int cif_packet_create(cif_packet_tp **packet, UChar *names[]) {
     UChar **names_norm;
     UChar **next;
     size_t element_count;
+    cif_packet_tp *temp_packet;
 
     if (names == NULL) {
         element_count = 0;
@@ -72,14 +73,14 @@ int cif_packet_create(cif_packet_tp **packet, UChar *names[]) {
         names_norm[element_count] = NULL;
 
         /* avoid making unneeded key copies by allowing the packet to alias the normalized keys */
-        result = cif_packet_create_norm(packet, names_norm, CIF_FALSE);
+        result = cif_packet_create_norm(&temp_packet, names_norm, CIF_FALSE);
         if (result == CIF_OK) {
             struct entry_s *entry;
             size_t counter2;
 
             /* assign the original item names */
             /* iteration via hh.next is documented to proceed in insertion order */
-            for (counter2 = 0, entry = (*packet)->map.head;
+            for (counter2 = 0, entry = temp_packet->map.head;
                     counter2 < element_count;
                     counter2 += 1, entry = (struct entry_s *) entry->hh.next) {
                 next = names + counter2;
@@ -89,16 +90,24 @@ int cif_packet_create(cif_packet_tp **packet, UChar *names[]) {
                     entry->key_orig = cif_u_strdup(*next);
 
                     if (entry->key_orig == NULL) {
-                        cif_packet_free(*packet);
+                        /*
+                         * Release the packet as a standalone one, so that the original names already assigned are
+                         * released along with it.  That also releases all the normalized names, which therefore must
+                         * not be released again below.
+                         */
+                        temp_packet->map.is_standalone = 1;
+                        cif_packet_free(temp_packet);
+                        counter = 0;
                         FAIL(soft, CIF_MEMORY_ERROR);
                     }
                 }
             }
 
             /* we're about to abandon our copies of the name pointers; the names now belong exclusively to the packet */
-            (*packet)->map.is_standalone = 1;
+            temp_packet->map.is_standalone = 1;
             /* free the array, but not its elements */
             free(names_norm);
+            *packet = temp_packet;
             return CIF_OK;
         }
 
